@@ -52,6 +52,7 @@ func c03Alphabet(lmtp bool) []string {
 		"MAIL FROM:<A@EXAMPLE.ORG>",
 		"MAIL FROM:<x@refused.example>",
 		"MAIL FROM:<broken",
+		"MAIL FROM:<ü@example.org>",
 		"RCPT TO:<r1@t1.example>",
 		"RCPT TO:<r2@t2.example>",
 		"RCPT TO:<r3@both.example>",
@@ -465,17 +466,27 @@ func c03Exec(c c03Case) (res c03Run) {
 			}
 		}
 	}
+	// The server closed its side of the connection only after Session.Logout returned
+	// (go-smtp Conn.Close), so the permit counters are final here: they are read
+	// directly (no waiting, no wall-clock deadline in the oracle).
+	for _, dom := range []string{"example.org", "EXAMPLE.ORG", "refused.example", ""} {
+		if a, i, sc := endp.limits.VerifInUse("127.0.0.1", dom); a != 0 || i != 0 || sc != 0 {
+			return fail("permit-not-returned", "after the session permits are still held: all=%d ip[127.0.0.1]=%d source[%q]=%d", a, i, dom, sc)
+		}
+	}
+	// functional cross-check of the counters: with nothing held both permits of every
+	// scope are granted at once (the deadline is a last resort, far above the cost)
 	for _, dom := range []string{"example.org", "refused.example", ""} {
 		var held int
 		for i := 0; i < 2; i++ {
-			ctx, cancel := context.WithTimeout(context.Background(), 100*time.Millisecond)
+			ctx, cancel := context.WithTimeout(context.Background(), ehDeadline)
 			err := endp.limits.TakeMsg(ctx, net.IPv4(127, 0, 0, 1), dom)
 			cancel()
 			if err != nil {
 				for ; held > 0; held-- {
 					endp.limits.ReleaseMsg(net.IPv4(127, 0, 0, 1), dom)
 				}
-				return fail("permit-not-returned", "after the session only %d of 2 permits can be taken for source domain %q: %v", i, dom, err)
+				return fail("permit-not-returned", "after the session only %d of 2 permits can be taken for source domain %q although the counters read zero: %v", i, dom, err)
 			}
 			held++
 		}
@@ -517,7 +528,7 @@ func c03Worlds(thorough bool) []c03World {
 func TestVerifC03(t *testing.T) {
 	r := vx.Start("C03", "sessions")
 	defer r.Finish()
-	r.Rule("explicit-state BFS over SMTP/LMTP command sequences (18 commands: greeting, MAIL valid / upper-case / refused sender / malformed, RCPT to target 1 / target 2 / both / upper-case / refused / malformed, DATA, DATA with too many Received fields, BDAT LAST, RSET, NOOP, QUIT, disconnect) on the real endpoint (go-smtp server over a pipe, pipeline built from configuration, two monitored targets (atomic and per-recipient), scripted check, real limits with concurrency 2 in the all/ip/source scopes), per world = {SMTP, LMTP} x {deferred, immediate sender reject} x one persistent fault (none or Start/AddRcpt/Body/status/Commit/Abort of a target, or a check reject at conn/sender/rcpt/body) x map iteration order; successor = fresh endpoint + replay of the history + one command; state = protocol mirror + typestate of every target delivery; invariants: target typestate (closed exactly once, no use after close), success reply => committed on every accepted recipient's target, failure before commit => nothing committed, at session end every delivery closed and every permit returned")
+	r.Rule("explicit-state BFS over SMTP/LMTP command sequences (19 commands: greeting, MAIL valid / upper-case / refused sender / malformed / non-ASCII sender without SMTPUTF8, RCPT to target 1 / target 2 / both / upper-case / refused / malformed, DATA, DATA with too many Received fields, BDAT LAST, RSET, NOOP, QUIT, disconnect) on the real endpoint (go-smtp server over a pipe, pipeline built from configuration, two monitored targets (atomic and per-recipient), scripted check, real limits with concurrency 2 in the all/ip/source scopes), per world = {SMTP, LMTP} x {deferred, immediate sender reject} x one persistent fault (none or Start/AddRcpt/Body/status/Commit/Abort of a target, or a check reject at conn/sender/rcpt/body) x map iteration order; successor = fresh endpoint + replay of the history + one command; state = protocol mirror + typestate of every target delivery; invariants: target typestate (closed exactly once, no use after close), success reply => committed on every accepted recipient's target, failure before commit => nothing committed, at session end every delivery closed and every permit returned")
 	r.Assume("a second fault is only combined in the thorough tier; TLS, AUTH and proxy-protocol paths are not driven here (AUTH: C14)")
 	if rp := r.Replay(); rp != nil {
 		var c c03Case
